@@ -506,7 +506,22 @@ func execC03Free(c c03FreeCase) Outcome {
 		select {
 		case <-doneCh:
 		case <-time.After(20 * time.Second):
-			return fail("deadlock: concurrent deliveries did not return within 20s; program %s", c.Prog)
+			// slow machine or deadlock? A deadlock shows as tracker goroutines parked on
+			// a mutex; otherwise keep waiting (a time-out alone is never a violation).
+			dump := goroutineDump("sessiontracker")
+			if strings.Contains(dump, "sync.(*Mutex).Lock") || strings.Contains(dump, "sync.runtime_SemacquireMutex") {
+				select {
+				case <-doneCh: // it was only slow after all
+				case <-time.After(10 * time.Second):
+					return fail("deadlock: concurrent deliveries parked on a mutex for 30s; program %s\n%s", c.Prog, dump)
+				}
+			} else {
+				select {
+				case <-doneCh:
+				case <-time.After(5 * time.Minute):
+					panic(&infraError{"free-running deliveries did not return within 5 minutes (no mutex wait visible)"})
+				}
+			}
 		}
 		in.runSequentialPart(true)
 		if err := in.evaluate(coopResult{}); err != nil {
@@ -518,6 +533,10 @@ func execC03Free(c c03FreeCase) Outcome {
 
 func TestC03_Free(t *testing.T) {
 	RunProp(t, "c03.free", func(rt *rapid.T) c03FreeCase {
-		return c03FreeCase{Prog: genC03Prog(rt), Seed: rapid.Uint64().Draw(rt, "seed"), Reps: 20}
+		reps := 10
+		if thorough() {
+			reps = 20
+		}
+		return c03FreeCase{Prog: genC03Prog(rt), Seed: rapid.Uint64().Draw(rt, "seed"), Reps: reps}
 	}, execC03Free)
 }
